@@ -13,6 +13,36 @@ def main():
     rep = core.Report("C20")
     quick = core.tier() == "quick"
     rng = random.Random(core.seed() * 7919 + 20)
+    # (A): the operational model of the explainer (Explain.tla, one clause per explain_* function) on every formula of depth <= 2
+    # (+ a depth-3 family in which a parent hands a non-contiguous set of positions to a bounded operator) x every trace over
+    # values below / at / above the threshold: the reported positions are a sufficient cause; nothing reported when satisfied
+    import explmc
+    ax, ay, bx = pred("ge", var("x"), const(2)), pred("lt", var("y"), const(2)), pred("le", var("x"), const(2))
+    UN = ["not", "next", "prev", "once", "hist", "ev", "alw", "rise", "fall", "sprev", "snext"]
+    TM = ["evT", "alwT", "onceT", "histT"]
+    BB = ["and", "or", "implies"]
+    D1 = [ax, ay, bx] + [un(o, f) for o in UN for f in (ax, ay)] + [un(o, f, a, b) for o in TM for f in (ax, ay) for a, b in ((0, 1), (1, 2), (1, 1), (0, 2))] + \
+         [bi(o, ax, ay) for o in BB] + [bi(o, ax, bx) for o in BB]
+    FU = D1 + [un(o, f) for o in UN for f in D1] + [un(o, f, a, b) for o in TM for f in D1 for a, b in ((0, 1), (1, 2))] + \
+         [bi(o, f, ay) for o in BB for f in D1] + [bi("implies", bx, f) for f in D1]
+    D3 = [un(o1, bi(o2, ax, un(o3, ay, a, b))) for o1 in ("alw", "hist", "ev", "once") for o2 in BB for o3 in TM for a, b in ((0, 1), (1, 1))]
+    if quick:
+        FU = [f for i, f in enumerate(FU) if i % 3 == core.seed() % 3]
+    r = explmc.run("C20_explain", FU + D3, maxn=3, workers=10)
+    rep.add_mc("ExplainMC: Explain!Explanation is a sufficient cause for %d formulas x all traces of length <= 3 over {1,2,3}" % len(FU + D3), r)
+    if r["violated"]:
+        rep.mc_violation("ExplainMC", r)
+    if not quick:
+        r = explmc.run("C20_explain4", D1, maxn=4, workers=12)
+        rep.add_mc("ExplainMC: %d formulas of depth <= 1 x all traces of length <= 4" % len(D1), r)
+        if r["violated"]:
+            rep.mc_violation("ExplainMC4", r)
+    devs = {}
+    for dev, fs in (("impliesPolarity", [bi("implies", un("alw", ax), ay), bi("implies", un("evT", ax, 0, 1), ay)]), ("riseNoPrev", [un("next", un("rise", bx)), un("fall", ax)]),
+                    ("firstInterval", D3)):
+        rr = explmc.run("C20_explain_dev_" + dev, fs, maxn=3, dev=[dev], workers=4, expect_violation=True)
+        devs[dev] = rr["violated"]
+    rep.extra["deviation_on_counterexamples"] = devs
     n = 1500 if quick else 12000
     cases = []
     for i in range(n):
@@ -72,7 +102,9 @@ def main():
     rep.add_traces(traces, vs_, gen, dist, nontrivial_key=lambda c: c["objs"][0]["text"] + str(c["events"][1]["w"]))
     viol = sum(1 for c in traces if c["events"][1].get("ret") and isinstance(c["events"][1]["ret"][0], int) and c["events"][1]["ret"][0] < 0)
     rep.extra["violated_at_time_0"] = viol
-    return rep.finish("traces: random formulas of the fragment the explainer supports (Boolean, next/prev, bounded and unbounded "
+    return rep.finish("TLC: theorem ExplainMC (the operational model of the explainer reports a sufficient cause) on all formulas of depth <= 2 "
+                      "x all short traces; every explain() below must report exactly the positions that model computes (binding diagnostic "
+                      "operational_model_*); traces: random formulas of the fragment the explainer supports (Boolean, next/prev, bounded and unbounded "
                       "once/historically/eventually/always, rise/fall) with one threshold per variable, traces of length <= 3 with values "
                       "at / just below / just above the threshold; after evaluate() and explain() the reported intervals per variable are "
                       "validated: TLC enumerates every re-assignment of the unreported samples over representatives of all regions cut out "
